@@ -32,9 +32,9 @@ NewMsg(tag, level, gen, id) ==
    wfull |-> 0, wgen |-> 0, wpartial |-> FALSE, rec |-> FALSE, relSaved |-> FALSE, acked |-> FALSE,
    exc |-> "open", exerrs |-> 0, exAfterClose |-> FALSE, deliv |-> 0, conns |-> {}]
 
-NewConn(owed) ==
-  [pk |-> <<>>, tail |-> 0, dirty |-> FALSE, connack |-> "none", other |-> FALSE, disc |-> FALSE, nread |-> 0,
-   owed |-> owed, midBy |-> "", last1 |-> -1, last2 |-> -1, lastrel |-> -1, closed |-> FALSE, clean |-> FALSE, inpk |-> <<>>]
+NewConn(owed, owedRel) ==
+  [owedRel |-> owedRel, pk |-> <<>>, tail |-> 0, dirty |-> FALSE, connack |-> "none", other |-> FALSE, disc |-> FALSE, nread |-> 0,
+   owed |-> owed, midBy |-> "", mustReset |-> FALSE, closedByClient |-> FALSE, last1 |-> -1, last2 |-> -1, lastrel |-> -1, closed |-> FALSE, clean |-> FALSE, inpk |-> <<>>]
 
 Init0 ==
   [gen |-> 0, amax |-> 0, emax |-> 0, clean |-> FALSE, phase |-> "run", faulty |-> FALSE, hostile |-> FALSE,
@@ -45,7 +45,7 @@ Init0 ==
    pend1 |-> <<>>, pend2 |-> <<>>, awaitResend |-> FALSE, last1 |-> -1, last2 |-> -1, unkPartial |-> FALSE,
    inb |-> <<>>, inbId |-> <<>>, held |-> {}, owedAcks |-> <<>>, marks |-> {}, damaged |-> {}, diverged |-> FALSE,
    lastFail |-> FALSE, nstops |-> 0, closedEarly |-> FALSE, closeCalled |-> FALSE, altered |-> {}, sent0 |-> {},
-   ambig |-> {}, attemptOpen |-> FALSE, down |-> "no", downSure |-> FALSE, lwGot |-> <<>>, stalls |-> <<>>]
+   garbled |-> FALSE, ambig |-> {}, attemptOpen |-> FALSE, down |-> "no", downSure |-> FALSE, lwGot |-> <<>>, stalls |-> <<>>]
 
 (* ---------------------------------------------------------------------- *)
 (* helpers on the outbound bookkeeping                                     *)
@@ -71,6 +71,7 @@ OnStore(m, e) ==
   IF e.err THEN R([m EXCEPT !.faulty = TRUE, !.down = IF e.op = "Load" /\ k = 0 THEN "yes" ELSE @,
                             !.attemptOpen = @ \/ (e.op = "Load" /\ k = 0),
                             !.downSure = IF e.op = "Load" /\ k = 0 THEN FALSE ELSE @], {})
+  ELSE IF e.op = "Save" /\ ~e.ok THEN R(m, {"C15_StoredRecordValid"})
   ELSE IF e.op = "Load" /\ k = 0 THEN R([m EXCEPT !.attemptOpen = TRUE, !.downSure = FALSE], {})
   ELSE IF e.op = "Save" /\ e.kind = "PUB" /\ lvl > 0 THEN
     LET t == e.tag
@@ -92,14 +93,14 @@ OnStore(m, e) ==
   ELSE IF e.op = "Save" /\ e.kind = "REL" /\ lvl = 2 THEN
     IF Has(m.owner, k) THEN
       LET t == m.owner[k] IN
-      R([m EXCEPT !.msgs[t].relSaved = TRUE], If(~m.msgs[t].rec, "C13_NoForgedProgress"))
+      R([m EXCEPT !.msgs[t].relSaved = TRUE], If(~m.msgs[t].rec /\ ~m.garbled, "C13_NoForgedProgress"))
     ELSE R(m, {"C03_RelForUnknown"})
   ELSE IF e.op = "Save" /\ e.kind = "MARK" THEN R([m EXCEPT !.marks = @ \cup {k - MarkFlag}], {})
   ELSE IF e.op = "Delete" /\ k >= MarkFlag THEN R([m EXCEPT !.marks = @ \ {k - MarkFlag}], {})
   ELSE IF e.op = "Delete" /\ lvl > 0 /\ Has(m.owner, k) /\ e.found THEN
     LET t == m.owner[k] IN
     IF e.p = "env" THEN R([m EXCEPT !.msgs[t].deleted = TRUE], If(k \notin m.damaged, "C16_OnlyCorruptDropped"))
-    ELSE R([m EXCEPT !.msgs[t].deleted = TRUE], If(~m.msgs[t].acked, "C01_NoForgedCompletion"))
+    ELSE R([m EXCEPT !.msgs[t].deleted = TRUE], If(~m.msgs[t].acked /\ ~m.garbled, "C01_NoForgedCompletion"))
   ELSE R(m, {})
 
 (* ---------------------------------------------------------------------- *)
@@ -246,7 +247,7 @@ OnRead(m, e) ==
   LET acc == FoldLeft(OnReadPacket, [m |-> m, fails |-> {}, c |-> e.c], e.pk)
       prev == IF Has(m.stalls, e.c) THEN m.stalls[e.c] ELSE 0
       now == IF e.err = "timeout" /\ e.n = 0 THEN prev + 1 ELSE 0
-  IN R([acc.m EXCEPT !.stalls = Put(@, e.c, now)],
+  IN R([acc.m EXCEPT !.stalls = Put(@, e.c, now), !.garbled = @ \/ e.ferr # ""],
        acc.fails \cup If(e.err \in {"timeout-unarmed", "empty"}, "Harness_BadOutcome")
                  \cup If(prev >= 2, "C10_StallNoticed"))
 
@@ -286,7 +287,8 @@ OnDeliver(m, e) ==
 OnDial(m, e) ==
   IF e.c = 0 THEN R([m EXCEPT !.lastFail = TRUE, !.attemptOpen = TRUE, !.down = "yes"], {})
   ELSE LET owed == {t \in DOMAIN m.msgs : m.msgs[t].saved /\ ~m.msgs[t].deleted}
-       IN R([m EXCEPT !.conns = Put(@, e.c, NewConn(owed)), !.cur = e.c, !.attemptOpen = TRUE], {})
+           owedRel == {t \in owed : m.msgs[t].relSaved}
+       IN R([m EXCEPT !.conns = Put(@, e.c, NewConn(owed, owedRel)), !.cur = e.c, !.attemptOpen = TRUE], {})
 
 OnWire(m, c, t) ==
   \E i \in DOMAIN m.conns[c].pk :
@@ -314,7 +316,7 @@ OnSig(m, e) ==
                     \cup If(~IsPrefixOf(m.pend1, ResendList(m, c, 1)) \/ ~IsPrefixOf(m.pend2, ResendList(m, c, 2)), "C05_ResendInAcceptOrder")
                ELSE {}
       relowed == IF e.online /\ ~m.online /\ c # 0 /\ Has(m.conns, c)
-                 THEN If(\E t \in m.conns[c].owed : m.msgs[t].level = 2 /\ m.msgs[t].relSaved /\ ~m.msgs[t].deleted /\ ~m.msgs[t].acked
+                 THEN If(\E t \in m.conns[c].owedRel : ~m.msgs[t].deleted /\ ~m.msgs[t].acked
                                                      /\ ~(\E i \in DOMAIN m.conns[c].pk : m.conns[c].pk[i].t = "PUBREL" /\ m.conns[c].pk[i].id = m.msgs[t].id),
                          "C03_RelUntilComp")
                  ELSE {}
@@ -328,7 +330,9 @@ OnSig(m, e) ==
 
 OnConnClose(m, e) ==
   \* the client closing the connection of an open attempt: the attempt failed (ErrDown may follow at once)
-  IF Has(m.conns, e.c) THEN R([m EXCEPT !.conns[e.c].closed = TRUE, !.down = IF m.attemptOpen THEN "yes" ELSE @], {}) ELSE R(m, {})
+  IF Has(m.conns, e.c) THEN R([m EXCEPT !.conns[e.c].closed = TRUE, !.down = IF m.attemptOpen THEN "yes" ELSE @,
+                                        \* closed before the application asked for it: the client's own reaction
+                                        !.conns[e.c].closedByClient = @ \/ ~m.closeCalled], {}) ELSE R(m, {})
 
 (* ---------------------------------------------------------------------- *)
 (* exchange channels                                                       *)
@@ -338,7 +342,7 @@ OnExch(m, e) ==
   LET ms == m.msgs[e.tag] IN
   IF e.v = "closed" THEN
     R([m EXCEPT !.msgs[e.tag].exc = "closed"],
-      If(~ms.acked, "C01_NoForgedCompletion") \cup If(ms.exAfterClose, "C12_Exchanges"))
+      If(~ms.acked /\ ~m.garbled, "C01_NoForgedCompletion") \cup If(ms.exAfterClose, "C12_Exchanges"))
   ELSE
     LET closedErr == "closed" \in RangeOf(e.err)
         fails == If(ms.exc = "closed", "C12_Exchanges")
@@ -494,7 +498,9 @@ OnFinal(m, e) ==
       left == {k \in RangeOf(e.keys) : LevelOfKey(k) > 0}
       lost == {t \in DOMAIN m.msgs : m.msgs[t].ret = "ok" /\ m.msgs[t].deliv = 0 /\ ~m.hostile /\ m.damaged = {}}
       unackedIn == {i \in DOMAIN m.inb : m.inb[i].returned > 0 /\ ~m.inb[i].done /\ ~m.hostile}
+      notReset == {c \in DOMAIN m.conns : m.conns[c].mustReset /\ ~m.conns[c].closedByClient}
   IN R(m, If(m.phase = "epi" /\ m.closeRet /\ e.leaks # <<>>, "C12_NoLeak")
+          \cup If(notReset # {}, "C13_ResetOnViolation")
           \cup If(m.phase = "epi" /\ m.closeRet /\ e.openconns # <<>>, "C12_NoLeak")
           \cup If(m.phase = "epi" /\ left # {} /\ ~m.hostile /\ m.damaged = {} /\ ~m.closedEarly, "C01_Drained")
           \cup If(m.phase = "epi" /\ lost # {} /\ ~m.closedEarly, "C01_Delivered")
@@ -510,6 +516,7 @@ OnFinal(m, e) ==
 (* means it found "pending" (C18).                                                               *)
 OnGate(m, e) ==
   IF e.site = "lw.got" THEN R([m EXCEPT !.lwGot = Put(@, e.p, [sure |-> m.downSure, down |-> m.down])], {})
+  ELSE IF e.k = "read" /\ e.mid /\ ~e.armed THEN R(m, {"C13_BoundedWait"})
   ELSE IF e.site = "lw.wait" THEN R(m, If(Has(m.lwGot, e.p) /\ m.lwGot[e.p].sure /\ m.downSure, "C18_WaitThenDown"))
   ELSE R(m, {})
 
@@ -525,7 +532,8 @@ ObsStep(m, e) ==
     [] e.e = "cr" -> OnRead(m, e)
     [] e.e = "bs" -> OnBrokerSend(m, e)
     [] e.e = "br" -> OnBrokerRecv(m, e)
-    [] e.e = "bsraw" -> R([m EXCEPT !.hostile = TRUE], {})
+    [] e.e = "bsraw" -> R([m EXCEPT !.hostile = TRUE,
+                                    !.conns = IF e.violation /\ Has(@, e.c) THEN [@ EXCEPT ![e.c].mustReset = TRUE] ELSE @], {})
     [] e.e = "deliver" -> OnDeliver(m, e)
     [] e.e = "dial" -> OnDial(m, e)
     [] e.e = "sig" -> OnSig(m, e)
